@@ -259,8 +259,24 @@ pub struct PooledContinuation {
     queue: Rc<RefCell<VecDeque<Continuation>>>,
 }
 
+#[cfg(feature = "verif-hooks")]
+impl PooledContinuation {
+    /// A placeholder that owns no coroutine (verification harnesses run task steps through a
+    /// callback instead; see `verif_support`).
+    pub fn verif_stub() -> Self {
+        Self {
+            continuation: None,
+            queue: Rc::new(RefCell::new(VecDeque::new())),
+        }
+    }
+}
+
 impl Drop for PooledContinuation {
     fn drop(&mut self) {
+        #[cfg(feature = "verif-hooks")]
+        if self.continuation.is_none() {
+            return;
+        }
         let mut c = self.continuation.take().unwrap();
         if c.reusable() {
             self.queue.borrow_mut().push_back(c);
@@ -343,6 +359,10 @@ unsafe impl Send for PooledContinuation {}
 /// as operations on other resources should commute trivially.
 #[track_caller]
 pub fn switch() {
+    #[cfg(feature = "verif-hooks")]
+    if crate::verif_support::intercept_switch() {
+        return;
+    }
     crate::annotations::record_tick();
     trace!("switch from {}", Location::caller());
     if ExecutionState::maybe_yield() {
